@@ -143,6 +143,8 @@ func (p *Population) StoreInnovation(innovation Innovation) {
 
 func (p *Population) Innovations() []Innovation {
 	verifYield("Innovations")
+	p.mutex.Lock()
+	defer p.mutex.Unlock()
 	return p.innovations
 }
 
